@@ -34,8 +34,9 @@ void init(int ntasks_max) {
         liblangs.push_back(l);
         int m = model::lang_by_name_en(polyseed_get_lang_name_en(l));
         libmap.push_back(m);
-        if (m != i) registry_matches = false;
+        if (m < 0) registry_matches = false;      // a language the snapshot does not know: automatic detection is not predicted
     }
+    // the same set of languages in another order is fine: results are mapped by name
     if (n != (int)model::langs.size()) registry_matches = false;
     HAVE_EDGES = have_edges;
 }
@@ -321,7 +322,8 @@ struct Checker {
         bool ctor_ok = is_ctor(op.kind) && rec.status == ST_OK && rec.produced;
         if (ctor_ok) {
             PtrInfo pi = classify(rec.seed_ptr, t, nullptr);
-            if (pi.cls != PC_BLOCK || pi.off != 0 || !E.blocks[pi.id].live) { fail(A_LEDGER, rec.idx, "the returned seed is not a live block of the allocator: " + pi.str()); return; }
+            // the seed object may start anywhere inside a block (a header in front of it is the library's business)
+            if (pi.cls != PC_BLOCK || !E.blocks[pi.id].live) { fail(A_LEDGER, rec.idx, "the returned seed does not lie in a live block of the allocator: " + pi.str()); return; }
             seedblocks[key] = leaked;
         } else if (!leaked.empty()) {
             fail(A_LEDGER, rec.idx, strf("%zu block(s) taken during this call are still live after it returned %s (first: blk%d, %zu bytes)", leaked.size(),
